@@ -396,6 +396,46 @@ def r4_routing(ctx, f, rep):
               facts={'callers': callers})
 
 
+def r5_state_transfer(ctx, f, rep):
+    rep.rule('C01-R5', 'state transfer is complete: iter_membership_state yields every stored record (the whole of '
+                       'Members.inner, Down ones included, unfiltered); apply_many consumes its iterator to the end - the loop '
+                       'is left only when the iterator is exhausted or an error is propagated - and hands over every item')
+    b = f.fn('Foca::iter_membership_state')
+    for p in ctx.paths(f, b, 'none'):
+        cs = p.calls()
+        good = p.end == 'return' and len(cs) == 2 and cs[0]['res'] == '<alloc::vec::Vec as core::ops::Deref>::deref' and \
+            cs[0]['args'][0] == ('ref', q.self_field('members', 'inner'), False) and \
+            cs[1]['res'] == 'core::slice::<impl [T]>::iter' and p.ret == ('call', cs[1]['id'])
+        rep.check(good, 'C01-R5', b.nname, 'returns members.inner.iter() - no filter, no adaptor', construct='full-state',
+                  facts={'calls': [c['res'] for c in cs]})
+    b = f.fn('Foca::apply_many')
+    n = 0
+    for p in ctx.paths(f, b, 'none'):
+        if p.end != 'return':
+            continue
+        n += 1
+        calls = {c['id']: c for c in p.calls()}
+        nexts = [c for c in p.calls() if c['decl'] == 'core::iter::Iterator::next']
+        if q.path_is_error_propagation(p):
+            continue
+        last = nexts[-1] if nexts else None
+        exhausted = False
+        if last is not None:
+            cs = [c for c in p.conds() if c['expr'][0] == 'discr' and c['expr'][1] == ('call', last['id'])]
+            exhausted = bool(cs) and q.cond_variants(f, cs[-1]) == {'None'}
+        rep.check(exhausted, 'C01-R5', b.nname, 'a normal return happens only after the update iterator reported None',
+                  construct='consumes-all')
+        # every Some(item) reaches exactly one of handle_self_update / apply_update
+        for nx in nexts[:-1]:
+            item = ('fieldv', ('call', nx['id']), '0', 'Some')
+            i0 = p.index_of(nx)
+            i1 = p.index_of(nexts[nexts.index(nx) + 1])
+            hand = [e for e in p.events[i0:i1] if e['kind'] == 'call' and e['res'] in ('Foca::apply_update', 'Foca::handle_self_update')]
+            rep.check(len(hand) == 1, 'C01-R5', b.nname, 'each item is handed to exactly one of apply_update / '
+                      'handle_self_update', construct='item-dispatched')
+    rep.floor('C01-R5', n, 4, 'returning paths of apply_many')
+
+
 def check(ctx):
     rep = ctx.report
     rep.explanation = (
@@ -419,4 +459,5 @@ def check(ctx):
         r2_change_state(ctx, f, rep)
         r3_writers(ctx, f, rep)
         r4_routing(ctx, f, rep)
+        r5_state_transfer(ctx, f, rep)
     rep.cur_config = None
